@@ -15,7 +15,8 @@ knows.  Two oracles:
 (b) fault enumeration: for every listing run, for EVERY request index k of the fault-free request
     sequence and every fault kind, a fresh client is run against a transport that fails exactly at
     request k.  Required: an exception of the client's own family (``SharePointRequestError`` with
-    status_code/url for HTTP and network failures) — or a transparently recovered complete listing —
+    status_code/url for HTTP and network failures, incl. an answer whose status is outside 2xx — 1xx, 3xx, 4xx,
+    5xx — handed back without an exception) — or a transparently recovered complete listing —
     nothing else escapes; every response object handed out so far was closed (or exited); the same
     client and a fresh client then return the complete listing from a healthy transport.
 
@@ -908,6 +909,10 @@ def main(run):
     run.require("max_children_seen", c["max_children_seen"], run.n(10, 12))
     run.require("risky_fraction_runs", judge.tag_runs["bound:fraction-at-bound"], run.n(5, 30))
     run.require("responses_opened", c["responses_opened"], 1000)
+    # "non-2xx without exception" must be injected from every status class outside 2xx (1xx, 3xx, 4xx, 5xx), at every request kind
+    ret_classes = {int(k[3:]) // 100 for (l, k), v in judge.label_kind.items() if k.startswith("ret") and v}
+    run.require("non_2xx_status_classes_returned_without_exception", len(ret_classes - {2}), 4)
+    run.require("request_kinds_answered_with_a_status_below_400", len({l for (l, k) in judge.label_kind if k.startswith("ret") and int(k[3:]) < 400}), len(LABELS))
 
 
 def replay(run, doc):
